@@ -18,7 +18,7 @@ SimInit == /\ nslow = 0 /\ InitRest
 
 Auto == \/ \E i \in Inst : Ensure(i) \/ Prune(i)
         \/ \E n \in Sid : CliOpen(n) \/ CliOpenFail(n) \/ SrvArrive(n) \/ SrvSkip(n) \/ CliEnd(n) \/ SrvEnd(n)
-        \/ \E m \in msgs : Deliver(m) \/ Consume(m)
+        \/ \E m \in msgs : Deliver(m) \/ Consume(m) \/ AckNoChan(m)
 \* while a local consumer is stalled the schedule only hands messages / acks over and releases it (a pure back-pressure window)
 Explicit0 ==
   \/ \E i \in Inst, sh \in Shard : \/ AddLocal(i, sh) /\ Cmd([a |-> "AddLocal", i |-> i, sh |-> sh])
